@@ -1,4 +1,5 @@
 import SnowModel.Drv.Util
+import SnowModel.Drv.C16
 import SnowModel.Drv.C12
 import SnowModel.Drv.L1
 import SnowModel.Drv.L2
@@ -11,6 +12,7 @@ def dispatch (j : Json) : Except String Json := do
   if m.startsWith "c12." then SnowModel.Drv.C12.handle m j
   else if m.startsWith "l1." then SnowModel.Drv.L1.handle m j
   else if m.startsWith "l2." then SnowModel.Drv.L2.handle m j
+  else if m.startsWith "c16." then SnowModel.Drv.C16.handle m j
   else throw s!"unknown method {m}"
 
 partial def loop (hin hout : IO.FS.Stream) : IO Unit := do
